@@ -301,7 +301,10 @@ def evaluate(check, case, ctx, stats, known, counting=True):
     """Runs one case through run_case with all the bookkeeping. Re-raises Violation unless it
     matches a known finding (and ctx is not strict)."""
     pre = check.excluded_by_construction(case)
-    if pre is not None and not ctx.strict:
+    # A domain is only excluded while its finding is still listed as `known`: once a finding is
+    # marked `fixed`, its domain is searched again and a regression alarms.
+    if pre is not None and not ctx.strict and any(
+            e.get("status") == "known" and sig_matches(e["signature"], pre) for e in known):
         if counting:
             stats.excluded_known[pre] += 1
         return None
